@@ -100,7 +100,7 @@ impl<'a> Command<'a> {
             });
         };
         #[cfg(not(feature = "start"))]
-        if !matches!(self.env, Environment::None) {
+        if matches!(self.env, Environment::None) {
             self.env = Environment::Provided(ProvidedEnvironment {
                 vars: vec![],
                 envp: Envp(vec![core::ptr::null()]),
